@@ -9,16 +9,12 @@ BASE_TB = ("Coq 8.16.1 kernel (vm_compute, no native_compute), no axioms (Print 
            "hand-written Gallina model tied to /repo by the differential correspondence run; harness generators, "
            "drivers and the Gallina literal printer")
 
-# id -> (text, note, technique, design_ref)
-CHECKS = {
-    "C18": ("Theorems on a Gallina model of launcherfinder/specs.py: match() answers Some exactly on hosts that satisfy "
-            "the request (sound and complete), the union returns the first matching alternative, & and * leave their "
-            "operands untouched in a store model with explicit aliasing. Tied to the code on every run by evaluating "
-            "the model inside coqc on the same random request expressions/hosts as the real parse/&/*/match.",
-            BASE_TB + "; humanfriendly and arpeggio trusted; the request grammar is modelled by its meaning (sem_expr), "
-            "the character-level parser is not modelled",
-            "Coq proof (induction, case analysis) + vm_compute correspondence", "6 C18"),
-}
+# one JSON file per claimed property: harness/manifest.d/Cxx.json
+# {property_id, text, note_extra, technique, design_ref}
+CHECKS = {}
+for f in sorted((ROOT / "harness" / "manifest.d").glob("C*.json")):
+    e = json.loads(f.read_text())
+    CHECKS[e["property_id"]] = (e["text"], BASE_TB + "; " + e["note_extra"], e["technique"], e["design_ref"])
 
 PENDING_REASON = "check not built yet in this revision (planned, see DESIGN.md section 10); not claimed"
 
